@@ -374,8 +374,8 @@ func H_C02_del() {
 func H_C02_invalid() {
 	ks := []string{`null`, `1`, `$i`, `"s"`, `{b: 1}`, `[1]`, `. + 0`, `[.[]?]`, `tostring`, `not`, `.`, `(.b? // .)`, `first(., 1)`, `if . then . else . end`, `select(true)`, `(., .)`, `{b: .b?}`}
 	accs := []string{`.b`, `.[0]`, `.[0:1]`, `.[]`, `.b.c`}
-	forms := []string{`[path(.a | %K | %A)]`, `(.a | %K | %A) = 5`, `(.a | %K | %A) |= 6`, `del(.a | %K | %A)`, `[paths(.. == (.a | %K | %A)?)] | length`, `[path(.c | %K | %A)]`}
-	k, a, f := ks[nondetChoice(len(ks))], accs[nondetChoice(len(accs))], forms[nondetChoice(vparam("forms", 4))]
+	forms := []string{`[path(.a | %K | %A)]`, `(.a | %K | %A) = 5`, `(.a | %K | %A) |= 6`, `del(.a | %K | %A)`}
+	k, a, f := ks[nondetChoice(len(ks))], accs[nondetChoice(len(accs))], forms[nondetChoice(len(forms))]
 	src := ""
 	for i := 0; i < len(f); i++ {
 		if f[i] == '%' && i+1 < len(f) {
